@@ -97,6 +97,25 @@ Theorem C31_format_two_digit_year_refuted :
 Proof. exact y_unpadded. Qed.
 Print Assumptions C31_format_two_digit_year_refuted.
 
+(* sub-day intervals (MICROSECOND, SECOND, MINUTE, HOUR are multiples of a microsecond): add then subtract restores
+   the moment; the sum is exact *)
+Theorem C31_add_sub_subday_inverse : forall dt tod n,
+  valid_date dt = true -> 0 <= tod < usday ->
+  let '(d1, t1) := add_us dt tod n in add_us d1 t1 (- n) = (dt, tod).
+Proof. exact add_sub_us_inverse. Qed.
+Print Assumptions C31_add_sub_subday_inverse.
+
+Theorem C31_add_subday_exact : forall dt tod n,
+  0 <= tod < usday ->
+  let '(d1, t1) := add_us dt tod n in 0 <= t1 < usday /\ days_from_civil d1 * usday + t1 = days_from_civil dt * usday + tod + n.
+Proof. exact add_us_value. Qed.
+Print Assumptions C31_add_subday_exact.
+
+(* DATEDIFF of datetimes only looks at the date parts *)
+Theorem C31_datediff_ignores_time_of_day : forall a ta b tb, datediff_dt a ta b tb = datediff_go a b.
+Proof. exact datediff_dt_ignores_time. Qed.
+Print Assumptions C31_datediff_ignores_time_of_day.
+
 Example C31_nonvacuous :
   days_from_civil (1970, 1, 1) = 0 /\ civil_from_days 19782 = (2024, 2, 29) /\
   add_months (2024, 1, 15) (-1) = (2023, 12, 15) /\ add_years (2024, 2, 29) 1 = (2025, 2, 28) /\
